@@ -898,32 +898,25 @@ func (zl *zlexer) Next() (lex, bool) {
 
 						zl.rrtype = true
 					} else if strings.HasPrefix(tokenUpper, "TYPE") {
-						t, ok := typeToInt(l.token)
-						if !ok {
-							l.token = "unknown RR type"
-							l.err = true
-							return *l, true
+						// Anything else that starts with TYPE (a name such as
+						// "typeset.example.") stays a plain string.
+						if t, ok := typeToInt(l.token); ok {
+							l.value = zRrtpe
+							l.torc = t
+
+							zl.rrtype = true
 						}
-
-						l.value = zRrtpe
-						l.torc = t
-
-						zl.rrtype = true
 					}
 
 					if t, ok := StringToClass[tokenUpper]; ok {
 						l.value = zClass
 						l.torc = t
 					} else if strings.HasPrefix(tokenUpper, "CLASS") {
-						t, ok := classToInt(l.token)
-						if !ok {
-							l.token = "unknown class"
-							l.err = true
-							return *l, true
+						// Likewise for names such as "classic.example.".
+						if t, ok := classToInt(l.token); ok {
+							l.value = zClass
+							l.torc = t
 						}
-
-						l.value = zClass
-						l.torc = t
 					}
 				}
 
